@@ -11,7 +11,8 @@ hprop.install(globals(), hprop.HistoryProperty(
     rule=("stateful histories over generated worlds with complete time-varying tariff tables, mixed electric/petrol fleets, station "
           "and base charging, fares from generated rate structures; a double-entry ledger built from charge and pickup events is "
           "compared with vehicle/station balances and energy counters after every step (per step and cumulatively, tol 1e-6), and "
-          "every charge price with energy x the station's tariff for that plug. non-trivial = charge sessions at >=2 distinct "
+          "every charge price with energy x the station's tariff for that plug; the stations' per-step load reports (construct_station_load_events on the step's reports) "
+          "equal what each station's state dispensed in the step. non-trivial = charge sessions at >=2 distinct "
           "non-zero (station, plug, tariff) AND a session cut short by an instruction; distinct = sha1(world, op log)"),
     assumptions=hprop.COMMON_ASSUMPTIONS + ["tariff tables are complete (name every station and plug), so the C11 price-table defects cannot mask this property"],
     quick=(16, 60, 40), thorough=(16, 600, 60),
